@@ -31,11 +31,11 @@ PROPS = ['C14']
 
 # file_archive(serialized=False) is left out: its same-second stale-.pyc reads (C03/C04 known
 # finding) would end most of its runs before any interleaving effect is seen
-LABELS = ['dir-pkl', 'dir-json', 'dir-fast', 'dir-z', 'dir-mmap', 'dir-src', 'sql-file',
+LABELS = ['dir-pkl', 'dir-json', 'dir-fast', 'dir-z', 'dir-mmap', 'dir-src', 'sql-file', 'sql-file',
           'file-pkl', 'file-json']
 
 READ_OPS = [(4, 'get'), (2, 'getd'), (3, 'contains'), (2, 'len'), (3, 'keys'), (1, 'iter'), (4, 'items'), (3, 'load'),
-            (1, 'values')]
+            (1, 'values'), (2, 'iterhold')]
 WRITE_KINDS = ('set', 'setdefault', 'update', 'dump', 'del', 'pop', 'discard', 'clear')
 REMOVE_KINDS = ('del', 'pop', 'discard', 'clear')
 
@@ -75,7 +75,13 @@ def generate(rng, prop, tier):
     keys = key_names(label, nkeys + 14)
     pre = [{'op': 'pre', 'k': keys[i], 'v': 'init-%d' % i} for i in range(rng.randint(0, nkeys))]
     prekeys = [p['k'] for p in pre]
-    if f == 'file':
+    long_lived = label == 'sql-file' and rng.chance(0.3)
+    if long_lived and rng.chance(0.6):
+        # a long-lived table (below) with at least two clients that store: housekeeping tied to row counts runs
+        # inside one client's store while another one commits
+        roles = rng.choice([['writer', 'writer'], ['writer', 'writer', 'reader'], ['writer', 'overwriter'],
+                            ['writer', 'writer', 'writer']])
+    elif f == 'file':
         roles = rng.choice([['writer', 'reader'], ['writer', 'opener'], ['writer', 'reader', 'opener'],
                             ['writer', 'opener', 'opener'], ['writer', 'reader', 'reader']])
     else:
@@ -154,7 +160,7 @@ def generate(rng, prop, tier):
                 ops.append({'op': 'items'})
         clients.append({'role': role, 'ops': ops})
     history = 0
-    if label == 'sql-file' and rng.chance(0.15):
+    if long_lived:
         # a long-lived table whose row count is about to pass a round number while the clients run
         pre.append({'op': 'pre', 'k': 'keyH', 'v': 'init-h'})
         history = rng.choice([1000, 1000, 512, 2000]) - len(pre) - rng.randint(1, 3)
@@ -228,6 +234,12 @@ def do_op(state, cfg, root, op):
         return a.get(op['k'], '<default>')
     if k == 'iter':
         return list(iter(a))
+    if k == 'iterhold':
+        # a `for key in archive:` loop that is still in its first round: the iterator stays alive, half consumed,
+        # while this client goes on (or idles) and the others write
+        it = iter(a)
+        state.setdefault('held', []).append(it)
+        return [x for x in [next(it, None)] if x is not None]
     if k == 'contains':
         return op['k'] in a
     if k == 'len':
@@ -489,7 +501,7 @@ def _analyse(case, history, final):
         if res is None:
             return 'client-stuck', 'operation %s of client %d never returned' % (json.dumps(op), c)
         tag = res[0]
-        if kind in ('get', 'getd', 'contains', 'len', 'keys', 'iter', 'values', 'items', 'load', 'open'):
+        if kind in ('get', 'getd', 'contains', 'len', 'keys', 'iter', 'values', 'items', 'load', 'open', 'iterhold'):
             if tag == 'KeyError' and kind == 'get':
                 if _ABSENT not in allowed(op['k'], rs, re):
                     return 'read-missing', 'client %d: lookup of %r raised KeyError although the key was stored ' \
@@ -515,6 +527,10 @@ def _analyse(case, history, final):
                     return 'phantom-read', 'client %d: %r reported present, never stored' % (c, op['k'])
                 if not val and _ABSENT not in al:
                     return 'read-missing', 'client %d: %r reported absent although stored throughout' % (c, op['k'])
+            elif kind == 'iterhold':
+                for k in val:
+                    if not isinstance(k, str) or not ever(k, re):
+                        return 'phantom-read', 'client %d: iteration yields key %r, never stored' % (c, k)
             elif kind in ('keys', 'iter', 'items', 'load', 'values', 'len'):
                 if kind == 'len':
                     lo = sum(1 for k in init if stable(k, rs, re))
@@ -821,7 +837,7 @@ def evidence_info(prop):
                 'entries; 2-3 clients with roles writer (set / update / cache.dump / setdefault of own new keys) / overwriter / '
                 'deleter / discarder (deletes an absent key, then reads) / clearer (clear() of the whole archive, paired with '
                 'readers only: entries may go, a reader still never fails or sees a value never stored) / reader (get, get-with-default, in, len, keys, '
-                'iter, items, values, cache.load) / opener, 1-3 operations each, every written value unique; clients that '
+                'iter, a half-consumed iterator that stays alive, items, values, cache.load) / opener, 1-3 operations each, every written value unique; clients that '
                 'have finished stay alive and idle until the run ends) executed under ONE seeded schedule: the scheduler picks which client performs its '
                 'next intercepted file-system/SQL call (sticky bursts, context switches biased to right after '
                 'unlink/rmdir/rename/DML/each statement of an SQL script). Invoke/return events are stamped with the scheduler\'s global sequence number; '
